@@ -328,6 +328,69 @@ def directed(ctx):
     return cases
 
 
+def cuts_in_order_oracle(ctx, case, real):
+    """-u/-U "in the order given": each cut removes from what the previous cut left; the removed pieces are what {cut_prefix}/{cut_suffix}
+    (paired: {r1.…}/{r2.…}) show. Sequential reference on short reads, where the order is visible in the removed pieces."""
+    if not case.get("cut_order") or "error" in real:
+        return
+    argv = case["argv"]
+    def chain(seq, cuts):
+        pre = suf = ""
+        for c in cuts:
+            if c > 0:
+                pre, seq = seq[:c], seq[c:]
+            elif c < 0:
+                suf, seq = seq[c:], seq[:c]
+        return seq, pre, suf
+    cuts1 = [int(argv[i + 1]) for i, t in enumerate(argv) if t == "-u"]
+    cuts2 = [int(argv[i + 1]) for i, t in enumerate(argv) if t == "-U"]
+    got1 = real["files"].get("o1.fastq", [])
+    got2 = real["files"].get("o2.fastq", []) if case["paired"] else None
+    exp1, exp2 = [], []
+    for k, (n, s_, q_) in enumerate(case["reads1"]):
+        a = chain(s_, cuts1)
+        if case["paired"]:
+            b = chain(case["reads2"][k][1], cuts2)
+            exp1.append((f"{rid(n)} {a[1]}|{a[2]}|{b[1]}|{b[2]}", a[0]))
+            exp2.append((f"{rid(n)} {a[1]}|{a[2]}|{b[1]}|{b[2]}", b[0]))
+        else:
+            exp1.append((f"{rid(n)} {a[1]}|{a[2]}", a[0]))
+    ctx.count("cut-order-checked")
+    g = [(r[0], r[1]) for r in got1] + [(r[0], r[1]) for r in (got2 or [])]
+    e = exp1 + exp2
+    if g != e:
+        bad = [(x, y) for x, y in zip(g, e) if x != y][:3]
+        ctx.failures.append(Failure("C10/cuts-not-in-the-order-given", "-u/-U cuts are not applied one after the other in the order given (removed pieces "
+                                    "shown by {cut_prefix}/{cut_suffix} or the remaining sequence differ from the sequential reference)",
+                                    case_input(case), [x[0] for x in bad] or len(g), [x[1] for x in bad] or len(e)))
+
+
+def directed_cut_order(ctx):
+    rng = ctx.rng
+    cases = []
+    for _ in range(ctx.scale(40, 600)):
+        paired = rng.random() < 0.5
+        def two():
+            a, b = rng.randint(1, 7), -rng.randint(1, 7)
+            k = rng.random()
+            return [a, b] if k < 0.4 else [b, a] if k < 0.8 else [rng.choice([a, b, 0])] if k < 0.9 else [0, rng.choice([a, b])]
+        argv = ["--no-index"]
+        for c in two():
+            argv += ["-u", str(c)]
+        if paired:
+            for c in two():
+                argv += ["-U", str(c)]
+            argv += ["--rename", "{id} {r1.cut_prefix}|{r1.cut_suffix}|{r2.cut_prefix}|{r2.cut_suffix}"]
+        else:
+            argv += ["--rename", "{id} {cut_prefix}|{cut_suffix}"]
+        argv += ["-o", "{dir}/o1.fastq"] + (["-p", "{dir}/o2.fastq"] if paired else [])
+        mk = lambda i: (f"r{i}", *(lambda s_: (s_, "".join(chr(33 + rng.randint(2, 40)) for _ in s_)))(pipe.rs(rng, rng.randint(0, 12))))
+        r1 = [mk(i) for i in range(8)]
+        r2 = [mk(i) for i in range(8)] if paired else None
+        cases.append(dict(argv=argv, paired=paired, reads1=r1, reads2=r2, with_qual=True, interleaved_in=False, cut_order=True))
+    return cases
+
+
 def tokenizer_cases(ctx):
     """`tokenize_braces` (validation of --rename templates) against the model: random strings over braces, letters and placeholders"""
     from core import correspond, hx
@@ -353,21 +416,24 @@ def run(ctx):
                  "random subsets of the read-modifying options (single and paired) with a random permutation of the option tokens, plus directed single-end cases "
                  "without adapters compared with a reference composition on reads where adjacent stages interact, plus one-sided paired cases (routing); "
                  "non-trivial = distinct modifier class sequence with more than two stages", nontrivial=lambda c, r: False)
-    for case, res, real, model in pipe.run_cases(ctx, directed(ctx) + directed_stepwise(ctx)):
+    for case, res, real, model in pipe.run_cases(ctx, directed(ctx) + directed_stepwise(ctx) + directed_cut_order(ctx)):
         ctx.count("directed")
         oracle(ctx, case, res, real)
         stepwise_oracle(ctx, case, real)
+        cuts_in_order_oracle(ctx, case, real)
 
 
 def extended_search(ctx):
-    for case, res, real, model in pipe.run_cases(ctx, [c for _ in range(4) for c in directed(ctx) + directed_stepwise(ctx)]):
+    for case, res, real, model in pipe.run_cases(ctx, [c for _ in range(4) for c in directed(ctx) + directed_stepwise(ctx) + directed_cut_order(ctx)]):
         oracle(ctx, case, res, real)
         stepwise_oracle(ctx, case, real)
+        cuts_in_order_oracle(ctx, case, real)
 
 
 def _replay_oracle(ctx, case, res, real):
     oracle(ctx, case, res, real)
     stepwise_oracle(ctx, dict(case, stepwise=True), real)
+    cuts_in_order_oracle(ctx, case, real)
 
 
 replay = pipeprop.generic_replay("C10", _replay_oracle)
